@@ -134,8 +134,9 @@ def _run(cdir, seed, tier, T, root, log):
     for i, j in enumerate(jobs):
         reqs.append({"job": j, "fmts": ["noop", "", "goimports"], "oracle": True,
                      # inputs on which the order of registration can matter (files disagreeing about
-                     # import names) are regenerated many times: Go's map order is the only lever
-                     "reps": 8 if j.get("corpus") else 40 if j.get("ordsens") else (3 if i % T["reps_every"] == 0 else 0),
+                     # import names) are regenerated many times: Go's map order is the only lever (the
+                     # known order-dependent witness F-22 shows its second output in about one run of 8)
+                     "reps": (64 if (j.get("expect") or {}).get("C14") else 8) if j.get("corpus") else 40 if j.get("ordsens") else (3 if i % T["reps_every"] == 0 else 0),
                      "outside": outside if j.get("outside") else ""})
     try:
         rres = pool.run_jobs(harness, root, reqs, env=env, timeout=120)
